@@ -219,6 +219,10 @@ def make_tabular(desc, n_fid, n_seeds, seed, elapsed="cumulative", extra_metrics
     cols, grid = grid_of(desc)
     space = build_space(desc)
     hyper = pd.DataFrame(data=[list(g) for g in grid], columns=cols)
+    # the column order of the table is independent of the key order of the configuration space (only names are matched)
+    perm = list(cols)
+    random.Random(seed * 7 + 3).shuffle(perm)
+    hyper = hyper[perm]
     names = ["loss"] + list(extra_metrics) + ["elapsed_time"]
     rs = np.random.RandomState(seed)
     obj = rs.rand(len(grid), n_seeds, n_fid, len(names))
@@ -242,7 +246,7 @@ def make_tabular(desc, n_fid, n_seeds, seed, elapsed="cumulative", extra_metrics
         objectives_evaluations=obj,
         objectives_names=names,
     )
-    return bb, space, {"cols": cols, "grid": grid, "obj": obj, "names": names}
+    return bb, space, {"cols": cols, "grid": grid, "obj": obj, "names": names, "table_column_order": perm}
 
 
 # ------------------------------------------------------------------------------------ time keeper
@@ -508,7 +512,7 @@ class SimRun:
             with contextlib.redirect_stdout(buf):
                 self.tuner.run()
         except BaseException as e:  # noqa: BLE001 - recorded, the oracle decides
-            if isinstance(e, (KeyboardInterrupt, SystemExit)) or type(e).__name__ == "CaseTimeout":
+            if (isinstance(e, (KeyboardInterrupt, SystemExit)) and not type(e).__name__.startswith("Injected")) or type(e).__name__ == "CaseTimeout":
                 raise
             self.exc = e
         return self
@@ -811,7 +815,7 @@ class ProcRun:
             with contextlib.redirect_stdout(buf):
                 self.tuner.run()
         except BaseException as e:  # noqa: BLE001
-            if isinstance(e, (KeyboardInterrupt, SystemExit)) or type(e).__name__ == "CaseTimeout":
+            if (isinstance(e, (KeyboardInterrupt, SystemExit)) and not type(e).__name__.startswith("Injected")) or type(e).__name__ == "CaseTimeout":
                 raise
             self.exc = e
         return self
